@@ -83,7 +83,7 @@ def judge(case, ctx, want_ratio=False):
 
 
 def draw(rng, alg):
-    kind = rng.choice(["small", "small", "small", "planted", "planted", "lpt_tight", "killer", "ties"])
+    kind = rng.choice(["small", "small", "small", "planted", "planted", "lpt_tight", "killer", "ties", "kgtn"])
     case = {"kind": "partition", "alg": alg, "pres": "list", "pres_seed": 0}
     if alg == "multifit":
         case["iterations"] = rng.choice([1, 2, 3, 5, 10, 20])
@@ -93,6 +93,10 @@ def draw(rng, alg):
         vals = gen.part_values(rng, rng.choice(["small", "ties", "zeros", "powers", "onehuge", "equal", "bignear"]) if kind == "small" else "ties", n, k)
         vals = gen.arrange(rng, vals, rng.choice(gen.ORDERS))
         case.update(k=k, values=vals, cls=kind)
+    elif kind == "kgtn":
+        k = rng.randint(3, 12)
+        n = rng.randint(1, min(k - 1, 6))
+        case.update(k=k, values=[rng.randint(0 if rng.random() < 0.2 else 1, rng.choice([3, 50, 10 ** 9])) for _ in range(n)], cls="kgtn")
     elif kind == "planted":
         k = rng.choice([2, 3, 4, 5, 6, 7, 8, 12, 20])
         T = rng.choice([12, 30, 100, 1000, 10 ** 6, 2 ** 40])
